@@ -82,6 +82,8 @@ def write_evidence(rep, binfo, level_rule, trusted, assumptions):
             'build_errors': binfo['errors'],
             'forbidden_vernacular_found': binfo['forbidden'],
             'translator': binfo.get('translate', ''),
+            'translator_cross_check': binfo.get('tablecheck', []),
+            'build_errors_outside_cone': binfo.get('errors_outside_cone', []),
             'cone': binfo['cone'],
             'evaluations': rep.evaluations,
             'distinct_nontrivial': len(rep.hashes),
